@@ -22,8 +22,6 @@ Ghost state (`Resp.notes`, not in the Go code): the places where the algorithm t
 cannot justify.  A response without notes is proved to be exactly the semantics
 (`Proofs/ListUsers*.lean`); the notes name the mechanism of each confirmed defect:
   `status-clash`   a last-write-wins map received one key with both statuses                      (LU-C)
-  `excl-flip`      exclusion, case "user is subtracted": subtracted entry `NoRelationship` ⇒ the base
-                   entry is re-issued `HasRelationship` although the base entry was `NoRelationship`  (LU-A)
   `excl-wild-has`  exclusion, case "base has the wildcard": a base entry `NoRelationship` is re-issued
                    with the zero status `HasRelationship`                                            (LU-B)
   `excl-cycle`     the subtracted operand reported a cycle ⇒ the exclusion returns nothing and drops
@@ -41,8 +39,8 @@ cannot justify.  A response without notes is proved to be exactly the semantics
   `inter-no-ignored` / `inter-excluded-has`    `expandIntersection` reads `excludedUsers` only        (LU-I)
   `bag-no-vs-wildcard`  producers sharing a channel: a negative entry of one hides a user another
                    covers by its wildcard                                                            (LU-J)
-  `filter-rel`     `expandDirect` compares only the type of a directly assigned user with the filter,
-                   so an object / wildcard is sent for a `type#relation` filter                      (LU-D)
+(Two former notes are gone with the fixes of LU-A — exclusion case "user is subtracted" now keeps the base
+status — and LU-D — `expandDirect` sends objects / wildcards only for a filter without relation.)
 -/
 import OpenFGAVerif.Spec.Vocab
 import OpenFGAVerif.Model.CheckV1
@@ -179,7 +177,7 @@ def exclStep (wk : K) (isWild : K → Bool) (baseMap subMap : List (Found K)) (f
         (if sfu.status = .has then [({ user := sfu.user, status := .no, excluded := [sfu.user] } : Found K)] else []))
   else if subWild || userIsSubtracted then
     (if subStatus = .has then [({ user := userKey, status := .no } : Found K)] else []) ++
-    (if subStatus = .no then [({ user := userKey, status := .has } : Found K)] else [])
+    (if subStatus = .no then [({ user := userKey, status := fu.status } : Found K)] else [])
   else
     [{ user := userKey, status := fu.status }]
 
@@ -233,7 +231,6 @@ base entry -/
 def exclNotes (wk : K) (baseMap subMap : List (Found K)) : List String :=
   let baseWild := baseMap.any (·.user = wk)
   let subWild := subMap.any (·.user = wk)
-  noteIf (!baseWild && baseMap.any (fun fu => fu.status = .no && noK subMap fu.user)) "excl-flip" ++
   noteIf (baseWild && !subWild && baseMap.any (fun fu => fu.status = .no && !hasK subMap fu.user)) "excl-wild-has" ++
   noteIf (baseWild && baseMap.any (fun fu => fu.status = .no && noK subMap fu.user)) "excl-wild-flip"
 
@@ -394,8 +391,7 @@ def directL (w : World) (f : Filter) (o r : String) : LExpr Node String :=
     | .ff => .send []
     | .tt =>
       if isUserset t.user then .node (splitUserset t.user)
-      else if userType t.user = f.typ then
-        (if f.rel = "" then .send [t.user] else .bag false [.send [t.user], .note "filter-rel"])
+      else if userType t.user = f.typ && f.rel = "" then .send [t.user]
       else .send []))
 
 /-- `expandTTU` -/
